@@ -23,6 +23,8 @@ pub struct WriteAheadLog {
     header: BlockZero,
     current_block: Option<WalBlock>,
     flush_queue: VecDeque<WalBlock>,
+    /// Number of full data blocks that are already on disk (at positions 1..=flushed_blocks).
+    flushed_blocks: u64,
     file: DBFile,
     block_size: usize,
 }
@@ -38,6 +40,7 @@ impl FileOperations for WriteAheadLog {
             header,
             current_block: None,
             flush_queue: VecDeque::new(),
+            flushed_blocks: 0,
             file,
             block_size,
         })
@@ -67,10 +70,18 @@ impl FileOperations for WriteAheadLog {
             block_size
         };
 
+        // Data blocks that are already in the file are final: new records go to a fresh block after them.
+        let flushed_blocks = header_buf
+            .metadata()
+            .wal_header
+            .total_blocks
+            .saturating_sub(1);
+
         Ok(Self {
             header: header_buf,
             current_block: None, // If needed, will be allocated on push.
             flush_queue: VecDeque::new(),
+            flushed_blocks,
             file,
             block_size,
         })
@@ -89,6 +100,7 @@ impl FileOperations for WriteAheadLog {
         self.header = BlockZero::alloc(0, self.block_size);
         self.current_block = None;
         self.flush_queue.clear();
+        self.flushed_blocks = 0;
         Ok(())
     }
 }
@@ -153,7 +165,8 @@ impl WriteAheadLog {
     }
 
     pub(crate) fn last_lsn(&self) -> Option<Lsn> {
-        self.header.last_lsn()
+        // The last sequence number handed out in the whole log, not just in block zero.
+        self.header.metadata().wal_header.global_last_lsn
     }
 
     /// Runs the analysis phase of the ARIES recovery protocol.
@@ -308,9 +321,9 @@ impl WriteAheadLog {
         self.header.metadata_mut().wal_header.global_last_lsn = Some(lsn);
         self.header.metadata_mut().wal_header.total_entries += 1;
 
-        // Try to write to block zero first
+        // Try to write to block zero first (only while no record lives in a later block)
         if self.current_block.is_none() {
-            if self.header.available_space() >= record_size {
+            if self.flushed_blocks == 0 && self.header.available_space() >= record_size {
                 self.header.try_push(lsn, record)?;
                 return Ok(());
             }
@@ -362,37 +375,37 @@ impl WriteAheadLog {
     }
 
     pub fn perform_flush(&mut self) -> io::Result<()> {
-        // Block 0 always exists, additional blocks start at index 1
-        let mut block_number: u64 = 1;
-        let mut write_offset = self.block_size as u64;
+        // Block 0 always exists. Data blocks live at position 1, 2, ... in the order they were
+        // filled: `flushed_blocks` of them are already on disk and final, the queued (full) ones
+        // come next, and the block being filled follows them. That last one stays the current
+        // block and is rewritten in place by every force until it is full.
+        let mut position: u64 = 1 + self.flushed_blocks;
 
         // Flush queued blocks
         while let Some(block) = self.flush_queue.pop_front() {
-            self.file.seek(SeekFrom::Start(write_offset))?;
+            self.file
+                .seek(SeekFrom::Start(position * self.block_size as u64))?;
             self.file.write_all(block.as_ref())?;
-            block_number += 1;
-            write_offset += self.block_size as u64;
+            position += 1;
+            self.flushed_blocks += 1;
         }
+
+        let mut last_block_used = self.header.metadata().block_header.used_bytes as u32;
 
         // Flush current block if it has data
         if let Some(ref block) = self.current_block {
             if block.metadata().used_bytes > 0 {
-                self.file.seek(SeekFrom::Start(write_offset))?;
+                self.file
+                    .seek(SeekFrom::Start(position * self.block_size as u64))?;
                 self.file.write_all(block.as_ref())?;
-                block_number += 1;
+                position += 1;
+                last_block_used = block.metadata().used_bytes as u32;
             }
         }
 
         // Update header metadata
-        self.header.metadata_mut().wal_header.total_blocks = block_number;
-
-        if let Some(block) = self.current_block.take() {
-            self.header.metadata_mut().wal_header.last_block_used =
-                block.metadata().used_bytes as u32;
-        } else {
-            self.header.metadata_mut().wal_header.last_block_used =
-                self.header.metadata().block_header.used_bytes as u32;
-        }
+        self.header.metadata_mut().wal_header.total_blocks = position;
+        self.header.metadata_mut().wal_header.last_block_used = last_block_used;
 
         // Write block zero (siempre al principio)
         self.file.seek(SeekFrom::Start(0))?;
